@@ -90,6 +90,24 @@ pub fn request(cipher: &str, keys: &[Vec<u8>], salt: &[u8], addr: &Addr, first: 
     (out, enc)
 }
 
+/// Request flight with arbitrary bytes in the identity-header slot and the body sealed under `body_psk` (what a peer
+/// that holds the server key but no registered user key can produce).
+pub fn request_with_identity_bytes(cipher: &str, eih: &[u8], body_psk: &[u8], salt: &[u8], addr: &Addr, first: &[u8], timestamp: u64) -> Vec<u8> {
+    let aead = tcp_aead(cipher).expect("2022 cipher");
+    let mut enc = StreamEnc::with_key(aead, session_subkey(body_psk, salt, aead.key_len()), MAX_CHUNK);
+    let mut var = addr.socks();
+    var.extend_from_slice(&0u16.to_be_bytes());
+    var.extend_from_slice(first);
+    let mut fixed = vec![0u8];
+    fixed.extend_from_slice(&timestamp.to_be_bytes());
+    fixed.extend_from_slice(&(var.len() as u16).to_be_bytes());
+    let mut out = salt.to_vec();
+    out.extend_from_slice(eih);
+    out.extend(enc.seal(&fixed));
+    out.extend(enc.seal(&var));
+    out
+}
+
 /// Request whose variable header carries arbitrary (possibly malformed) content – for the "authenticated but malformed" cases.
 pub fn request_raw_var(cipher: &str, keys: &[Vec<u8>], salt: &[u8], var: &[u8], stream_type: u8, timestamp: u64, declared_len: Option<u16>) -> Vec<u8> {
     let aead = tcp_aead(cipher).expect("2022 cipher");
